@@ -21,6 +21,7 @@ import (
 	"github.com/cloudwego/dynamicgo/conv/j2p"
 	"github.com/cloudwego/dynamicgo/conv/p2j"
 	"github.com/cloudwego/dynamicgo/proto"
+	rw "google.golang.org/protobuf/encoding/protowire"
 )
 
 // one conversion under a watchdog
@@ -119,9 +120,137 @@ func c13Finite(r *rng, v *pgVal, inList bool) {
 	}
 }
 
+// Re-encode, with probability pct per occurrence, the PACKED records of repeated numeric fields in the UNPACKED form (one tag + value
+// per element), at the top level and inside nested messages / map values.  Both forms are legal for a field the descriptor calls
+// packed (a parser must accept either; proto2 writers emit the unpacked one); the proved decoder reads both.  Returns the new
+// bytes and whether anything was changed; ok=false when the bytes are not what the schema walk expects (then b is kept).
+func c13Unpack(r *rng, s *pgSchema, msgName string, b []byte, pct int) (out []byte, changed bool, ok bool) {
+	m := s.msg(msgName)
+	if m == nil {
+		return b, false, false
+	}
+	for len(b) > 0 {
+		num, wt, n := rw.ConsumeTag(b)
+		if n < 0 {
+			return nil, false, false
+		}
+		vn := rw.ConsumeFieldValue(num, wt, b[n:])
+		if vn < 0 {
+			return nil, false, false
+		}
+		rec := b[:n+vn]
+		val := b[n : n+vn]
+		b = b[n+vn:]
+		f := m.byNum(int32(num))
+		if f == nil || wt != rw.BytesType {
+			out = append(out, rec...)
+			continue
+		}
+		payload, pn := rw.ConsumeBytes(val)
+		if pn < 0 {
+			return nil, false, false
+		}
+		switch {
+		case f.Label == pgRepeated && pgIsNumKind(f.Kind):
+			if !r.chance(pct) || len(payload) == 0 {
+				out = append(out, rec...)
+				continue
+			}
+			ewt := rw.Type(pgWireType(f.Kind))
+			var un []byte
+			good := true
+			for p := payload; len(p) > 0; {
+				en := rw.ConsumeFieldValue(num, ewt, p)
+				if en < 0 {
+					good = false
+					break
+				}
+				un = rw.AppendTag(un, num, ewt)
+				un = append(un, p[:en]...)
+				p = p[en:]
+			}
+			if !good {
+				return nil, false, false
+			}
+			out = append(out, un...)
+			changed = true
+		case f.Label == pgMap:
+			if f.Kind != pgKMessage {
+				out = append(out, rec...)
+				continue
+			}
+			// entry: field 1 key, field 2 value (a message)
+			var entry []byte
+			for p := payload; len(p) > 0; {
+				en, ewt, tn := rw.ConsumeTag(p)
+				if tn < 0 {
+					return nil, false, false
+				}
+				evn := rw.ConsumeFieldValue(en, ewt, p[tn:])
+				if evn < 0 {
+					return nil, false, false
+				}
+				if en == 2 && ewt == rw.BytesType {
+					inner, in := rw.ConsumeBytes(p[tn : tn+evn])
+					if in < 0 {
+						return nil, false, false
+					}
+					sub, ch, ok2 := c13Unpack(r, s, f.MsgName, inner, pct)
+					if !ok2 {
+						return nil, false, false
+					}
+					changed = changed || ch
+					entry = rw.AppendTag(entry, 2, rw.BytesType)
+					entry = rw.AppendBytes(entry, sub)
+				} else {
+					entry = append(entry, p[:tn+evn]...)
+				}
+				p = p[tn+evn:]
+			}
+			out = rw.AppendTag(out, num, rw.BytesType)
+			out = rw.AppendBytes(out, entry)
+		case f.Kind == pgKMessage:
+			sub, ch, ok2 := c13Unpack(r, s, f.MsgName, payload, pct)
+			if !ok2 {
+				return nil, false, false
+			}
+			changed = changed || ch
+			out = rw.AppendTag(out, num, rw.BytesType)
+			out = rw.AppendBytes(out, sub)
+		default:
+			out = append(out, rec...)
+		}
+	}
+	return out, changed, true
+}
+
+// number of float / double scalars in a value (the extracted checker evaluates each through exact decimal arithmetic: its cost)
+func c13CountFloats(v *pgVal) int {
+	n := 0
+	switch v.Tag {
+	case 1:
+		for _, fv := range v.Fields {
+			n += c13CountFloats(fv.V)
+		}
+	case 2:
+		if v.Kind == pgKFloat || v.Kind == pgKDouble {
+			n = 1
+		}
+	case 4:
+		for _, e := range v.Elems {
+			n += c13CountFloats(e)
+		}
+	case 5:
+		for _, kv := range v.Entries {
+			n += c13CountFloats(kv.V)
+		}
+	}
+	return n
+}
+
 func genC13Proto(r *rng, n int) {
 	optsPool := []pgOpts{{MaxMsgs: 4, MaxFields: 8, MaxDepth: 3}, {MaxMsgs: 3, MaxFields: 6, MaxDepth: 4}, {MaxMsgs: 5, MaxFields: 10, MaxDepth: 2}, {MaxMsgs: 2, MaxFields: 5, MaxDepth: 5}}
-	made, compileErr, encodeErr, overrun := 0, 0, 0, 0
+	made, compileErr, encodeErr, overrun, unpackedForm, tooHeavy := 0, 0, 0, 0, 0, 0
 	for made < n {
 		s := genProtoSchema(r.fork(), optsPool[r.intn(len(optsPool))])
 		unpacked := map[*pgField]bool{}
@@ -161,10 +290,25 @@ func genC13Proto(r *rng, n int) {
 			if c08OverrunMsg(v, 0, unpacked, false) {
 				overrun++ // shapes that made p2j's list / map loops run past the enclosing message (C08 finding 805, fixed in /repo 3878b17): kept in
 			}
+			if c13CountFloats(v) > 60 {
+				tooHeavy++ // keeps the quick tier's judging time bounded; long float lists are C08's / C09's subject
+				continue
+			}
 			b, err := c.encodeRef(v, s.Root)
 			if err != nil {
 				encodeErr++
 				continue
+			}
+			if len(b) > 6000 {
+				tooHeavy++
+				continue
+			}
+			// a share of the inputs carries packed-declared repeated scalars in the unpacked wire form
+			if r.chance(30) {
+				if ub, ch, ok := c13Unpack(r, s, s.Root, b, 60); ok && ch {
+					b = ub
+					unpackedForm++
+				}
 			}
 			if c13ProtoOne(c.Dyn, sf, b, r.chance(25), r.chance(25)) {
 				out.w.Flush()
@@ -174,5 +318,5 @@ func genC13Proto(r *rng, n int) {
 			made++
 		}
 	}
-	fmt.Fprintf(os.Stderr, "C13 proto: messages=%d compileErr=%d encodeErr=%d overrunShapes=%d\n", made, compileErr, encodeErr, overrun)
+	fmt.Fprintf(os.Stderr, "C13 proto: messages=%d compileErr=%d encodeErr=%d overrunShapes=%d unpackedWireForm=%d skippedHeavy=%d\n", made, compileErr, encodeErr, overrun, unpackedForm, tooHeavy)
 }
